@@ -123,7 +123,19 @@ class TrioGen(object):
         # nested nurseries
         children_of = []
         for k in range(nn):
-            body.append("    " * ind + "async with trio.open_nursery() as n%d:" % k)
+            if t.choose(4) == 0:
+                self.ncm = getattr(self, "ncm", 0) + 1
+                cm = "ncm%d" % self.ncm
+                self.lines.extend([
+                    "@contextlib.asynccontextmanager",
+                    "async def %s(W):" % cm,
+                    "    async with trio.open_nursery() as inner:",
+                    "        yield inner",
+                    "",
+                ])
+                body.append("    " * ind + "async with %s(W) as n%d:" % (cm, k))
+            else:
+                body.append("    " * ind + "async with trio.open_nursery() as n%d:" % k)
             ind += 1
             nchild = t.weighted([1, 3, 2, 1]) if k == nn - 1 or t.choose(2) else 0
             child = None
@@ -190,10 +202,17 @@ def walk_check(ctx, W, task, st, depth=0):
         raise Violation("c14_error", "Stack of %r has error %r" % (task.name, st.error), {})
     ctx.stat("tasks_checked")
     found = []
-    for f in st.frames:
-        for c in f.contexts:
-            if isinstance(c.obj, trio.Nursery):
-                found.append((f, c))
+
+    def scan(stack):
+        for f in stack.frames:
+            for c in f.contexts:
+                if isinstance(c.obj, trio.Nursery):
+                    found.append((f, c))
+                elif c.inner_stack is not None:
+                    # a nursery opened inside an @asynccontextmanager lives in its inner stack
+                    scan(c.inner_stack)
+
+    scan(st)
     nurseries = list(task.child_nurseries)
     if len(found) != len(nurseries) or any(c.obj is not n for (f, c), n in zip(found, nurseries)):
         raise Violation(
@@ -274,7 +293,9 @@ def run_tree(ctx):
     linecache.cache[filename] = (len(text), None, text.splitlines(True), filename)
     ctx.case["program"] = text
     W = TW(tape, ctx)
-    ns = {"trio": trio, "W": W, "__name__": "vsim_trio"}
+    import contextlib
+
+    ns = {"trio": trio, "W": W, "contextlib": contextlib, "__name__": "vsim_trio"}
     exec(compile(text, filename, "exec"), ns)
     result = {}
 
